@@ -18,6 +18,7 @@ CONSTANTS
   BURNS = {1}
   DELAMTS = {1}
   MAXDEL = 1
+  MAXJAIL = 1
   MAXEPOCHS = 4
   MAXOPS = 5
   GENSUPPLY = 10
